@@ -121,6 +121,7 @@ def cases(rng, tier):
         out.append({"t": "batch", "v": v, "oidc": oidc, "jwt": jwt, "seed": rng.getrandbits(40), "n": rng.randint(15, 40)})
     for _ in range(max(2, n // 4)):
         out.append({"t": "client", "seed": rng.getrandbits(40), "n": rng.randint(10, 30)})
+    out.append({"t": "rph", "seed": rng.getrandbits(40), "n": rng.randint(2, 5)})
     # one long-lived relying party against one long-lived provider: whole flows (all response types / modes / request transports, PKCE)
     for _ in range(max(2, n // 4)):
         out.append({"t": "tandem", "seed": rng.getrandbits(40), "n": rng.randint(6, 14), "am": rng.choice(["client_secret_basic", "private_key_jwt", "client_secret_jwt"])})
@@ -198,7 +199,33 @@ def impl_tandem(c):
     return {"nops": c["n"], "changes": changes, "aliases": [], "probe_equal": True, "probe_diff": [], "hist": [], "completed": done}
 
 
+def impl_rph(c):
+    """RPHandler: clients for issuers without a configuration of their own are made from the template"""
+    from idpyoidc.client.rp_handler import RPHandler
+    rng = random.Random(c["seed"])
+    base = {p: heapsnap.canon(v) for p, v in heapsnap.module_constants()}
+    rph = RPHandler(base_url="https://rp.example.org")
+    tmpl = heapsnap.canon(rph.client_configs)
+    changes = []
+    firsts = []
+    for i in range(c["n"]):
+        STATS["requests"] += 1
+        iss = f"https://op-{rng.randrange(1000)}.example.com"
+        cl = rph.init_client(iss)
+        firsts.append((cl, iss))
+        now = {p: heapsnap.canon(v) for p, v in heapsnap.module_constants()}
+        for p in now:
+            if now[p] != base.get(p) and not any(ch["root"] == p for ch in changes):
+                changes.append({"step": i, "op": "init_client", "root": p, "before": json.dumps(base.get(p))[:300], "after": json.dumps(now[p])[:300]})
+        if heapsnap.canon(rph.client_configs) != tmpl and not any(ch["root"] == "rph.client_configs" for ch in changes):
+            changes.append({"step": i, "op": "init_client", "root": "rph.client_configs", "before": json.dumps(tmpl)[:300], "after": json.dumps(heapsnap.canon(rph.client_configs))[:300]})
+    ok = all(cl.get_context().issuer == iss for cl, iss in firsts)
+    return {"nops": max(8, c["n"]), "changes": changes, "aliases": [], "probe_equal": ok, "probe_diff": [] if ok else ["an earlier client's issuer changed"], "hist": []}
+
+
 def impl(c):
+    if c["t"] == "rph":
+        return impl_rph(c)
     if c["t"] == "client":
         return impl_client(c)
     if c["t"] == "tandem":
@@ -337,7 +364,7 @@ def impl_client(c):
 
 
 def model_lines(c, obs):
-    if c["t"] in ("client", "tandem"):
+    if c["t"] in ("client", "tandem", "rph"):
         return ["heap\tsettings"]
     cfg = CFGV[c["v"]]
     return ["\t".join(["heap", "usage", "1" if cfg["c1_rules"] else "0", "1" if cfg["c1_rules"] else "0"]), "heap\tsettings"]
@@ -367,7 +394,7 @@ def oracle(c, obs):
     v = []
     for ch in obs["changes"]:
         root = ch["root"]
-        kind = "schema" if (".c_param" in root or ".c_default" in root or ".c_allowed_values" in root) else root.split(".")[0]
+        kind = "schema" if (".c_param" in root or ".c_default" in root or ".c_allowed_values" in root) else ("module-constant" if root.startswith("idpyoidc.") else root.split(".")[0])
         v.append({"cls": "static-state-changed", "kind": kind, "root": root if kind != "cdb" else ".".join(root.split(".")[:1] + root.split(".")[2:]), "op": ch["op"],
                   "before": ch["before"], "after": ch["after"]})
     if not obs["probe_equal"]:
